@@ -23,9 +23,11 @@ def kinds_from_table():
 def describe(line, kinds):
     parts = [p.strip() for p in line.split(":")]
     if parts[0].startswith("r"):
-        ki, cred, ts, dbg, hp, ak = [int(x) for x in parts[1].split()]
+        f = parts[1].split()
+        ki, cred, ts, dbg, hp, ak = [int(x) for x in f[:6]]
+        key = bytes.fromhex(f[6]).decode("utf-8", "replace") if len(f) > 6 and f[6] != "-" else None
         return {"request_type": kinds[ki], "credential": CREDS[cred], "auth_token_configured": bool(ts), "debug_enabled": bool(dbg),
-                "params_object": bool(hp), "admin_only_config_key": bool(ak)}
+                "params_object": bool(hp), "config_key": key}
     return {"raw": line}
 
 
@@ -68,7 +70,7 @@ def check(tier):
     good = [r for r in results if "error" not in r and not r["line"].startswith("stops")]
     for r in good:
         r["impl2"] = " ".join(r["impl"].split()[:2]) if r["id"].startswith("r") else r["impl"].split()[0]
-    diffs = [r for r in good if r["impl2"] != r["model"]]
+    diffs = [r for r in good if r["impl2"] != r["model"] or "A1" in r["jextra"]]
     specfails = [r for r in good if not r["spec_ok"]]
     if stops:
         v, a = [int(x) for x in stops[0].split(":")[2].split()]
@@ -79,7 +81,7 @@ def check(tier):
     if specfails:
         m = specfails[0]
         path = vlib.write_replay(PROP, {"property": PROP, "what": "observed reply violates the role rules (Spec/C18Judge.v)", "request": describe(m["line"], kinds),
-                                        "case_line": m["line"], "observed": "class need changed has_result = " + m["impl"],
+                                        "case_line": m["line"], "observed": "class need changed has_result admin_only_state_changed = " + m["impl"],
                                         "classes": "0 unauthorized 1 forbidden 2 debug-disabled 3 unsupported 4 dispatched 5 invalid 9 no reply"})
         violations.append((path, "request executed or answered against the role rules: %s" % json.dumps(describe(m["line"], kinds)), False))
     elif diffs:
